@@ -453,6 +453,15 @@ func (g *generator) args(module, verb string, nfaces int) (*mgmt.ControlArgs, st
 }
 
 func (g *generator) command(nfaces int) opCmd {
+	if g.chance(0.02) {
+		// an Interest about as long as the internal face's MTU (one very long trailing component). The answer to it is a Data
+		// packet under the same name and may not fit a packet at all, so the command chosen is one without table effect
+		// (unknown verb): what is checked is that the management loop survives it and answers the next command.
+		n := enc.Name{gen("localhost"), gen("nfd"), gen("rib"), gen("verif-no-such-verb")}
+		pad := 8600 + g.r.Intn(190) - len(n.Bytes()) - 20
+		n = append(n, enc.NewBytesComponent(enc.TypeGenericNameComponent, make([]byte, pad)))
+		return opCmd{inFace: g.inFace(nfaces), name: n, label: "rib/verif-no-such-verb,mtu-boundary-interest"}
+	}
 	if g.chance(0.015) {
 		// a Data packet whose name looks like a command
 		n := enc.Name{gen("localhost"), gen("nfd"), gen("rib"), gen("register"), gen("x")}
